@@ -153,6 +153,6 @@ Open Scope N_scope.
 """ % (B.path, A.path, ", ".join(sorted(set("%s::%s" % (t, n) for t, n, _ in known.needs))))
     names = ["gen_with_capacity", "gen_free_elements", "gen_is_full", "gen_bucket_clear", "gen_push_slice", "gen_new",
              "gen_memory_usage", "gen_clear", "gen_allocate_memory", "gen_store_str"]
-    tail = "\nCreate HintDb arenagen discriminated.\n#[global] Hint Unfold %s : arenagen.\n" % " ".join(names)
+    tail = "\n#[global] Hint Unfold %s : arenagen.\n" % " ".join(names)
     open(os.path.join(out, "ArenaGen.v"), "w").write(hdr + "\n".join(parts) + tail)
     print("rust2coq: arena: %d definitions -> %s" % (len(names), os.path.join(out, "ArenaGen.v")))
